@@ -120,7 +120,7 @@ def check_single(case, ev):
         fa, exc = guarded(lambda: FileAnonymizer(anon_pwd=True, anon_ip=False, salt=case["salt"], sensitive_words=case.get("words") or None))
         if exc is not None:
             return core.exc_finding(exc, case, "ctor/")
-        out, exc = guarded(core.run_io, fa, line + "\n")
+        out, exc = guarded(core.run_io, fa, line + "\n", bool(case.get("nonl")))
         if exc is not None:
             return core.exc_finding(exc, case, "run/")
     out = out[:-1] if out.endswith("\n") else out
@@ -233,6 +233,7 @@ def _case(draw):
             w = draw(st.sampled_from(cand))
             words = [draw(st.sampled_from([w, w.lower(), w.upper()]))] + (["Kwyjibo"] if draw(st.booleans()) else [])
     return {
+        "nonl": draw(st.integers(0, 3)) == 0,
         "words": words,
         "form": form.id,
         "head": draw(st.integers(0, len(form.heads) - 1)),
